@@ -200,6 +200,12 @@ impl Rig {
             return;
         }
         match v {
+            // a value that is not valid Unicode: for every convention it is "set, non-empty, not 0, not dumb"
+            // exactly like the marker text the model sees
+            Some(v) if v == NON_UTF8_MARKER => {
+                use std::os::unix::ffi::OsStrExt as _;
+                std::env::set_var(VAR_NAMES[i], std::ffi::OsStr::from_bytes(b"x\xe9\xff"))
+            }
             Some(v) => std::env::set_var(VAR_NAMES[i], v),
             None => std::env::remove_var(VAR_NAMES[i]),
         }
@@ -524,7 +530,16 @@ fn visit(rig: &mut Rig, prev: &Live, col: &mut Collected, phase: &str) {
     }
 }
 
+/// stands for an environment value that is not valid UTF-8 (see `Rig::set_var`)
+const NON_UTF8_MARKER: &str = "\u{1}not-utf8";
+
 fn extended_values(var: usize) -> Vec<Option<&'static str>> {
+    let mut v = extended_values_text(var);
+    v.push(Some(NON_UTF8_MARKER));
+    v
+}
+
+fn extended_values_text(var: usize) -> Vec<Option<&'static str>> {
     match var {
         0 | 1 => vec![None, Some(""), Some("0"), Some("1"), Some("false"), Some(" "), Some("true")],
         2 => vec![None, Some(""), Some("0"), Some("1"), Some("00"), Some("0 "), Some("false"), Some("no")],
@@ -900,7 +915,7 @@ fn main_check(ctx: &Ctx) -> Outcome {
     }
     out.assume("isatty() on a pty slave stands for 'the stream is a terminal'; the harness's ground truth for every stream is libc::isatty on its fd (false for in-memory and boxed dyn writers)");
     out.assume("'enabled' may be reported by choice() as Always or AlwaysAnsi; an explicit global choice must be returned as is; auto(..).current_choice() must be Never when colour is off, AlwaysAnsi for an explicit AlwaysAnsi, AlwaysAnsi or Always otherwise (non-Windows)");
-    out.assume("values are valid UTF-8; non-Unicode environment values are not enumerated");
+    out.assume("one value that is not valid Unicode (bytes 78 e9 ff) is enumerated per variable; the model sees it as a non-empty text that is none of the special values");
     out.assume("clap: the single-flag spellings '--color v' and '--color=v' must parse for v in auto/always/never; what unknown or repeated flags do is not demanded");
     out.assume("TERM convention on this (non-Windows) platform: supports colour <=> set and != 'dumb' (exact, case-sensitive), as the statement words it");
     out
